@@ -710,6 +710,13 @@ func (bc *BlockChain) verifyAllSideChainBlocks(chain types.Blocks) (err error) {
 			return err
 		}
 
+		// The next side block is executed on top of this one: execution looks ancestors up
+		// through the chain reader (staking EndBlock reads the parent header, the EVM reads
+		// block hashes), so this verified block must be retrievable from the database.
+		if !bc.HasBlock(b.Hash(), b.NumberU64()) {
+			rawdb.WriteBlock(bc.db, b)
+		}
+
 		//append parent for next block
 		parents = append(parents, b)
 		if i <= maxCachesIndex {
